@@ -454,6 +454,10 @@ theorem loop_step (cfg : Cfg) (fuel : Nat) (h : HState) (ai ai' : It) (X : Res H
 
 theorem clearRem_ok (x : It) : clearRem (.ok x) = .ok { x with remAsValue := false } := rfl
 
+/-- the next word (if any) is not read as a value: the line ends here, or a key word follows -/
+def NoValueNext (ws : List Word) : Prop :=
+  ws = [] ∨ ∃ t rest, ws = ('-' :: t) :: rest ∧ t ≠ [] ∧ t ≠ ['-']
+
 /-- the legal surface forms of an abstract command line (first stage: one word group per use; flag
     groups behind one dash and value-less uses of optional-value arguments are not included yet).
     The index is the handler's last-argument marker, which decides where free values go. -/
@@ -486,6 +490,21 @@ inductive Spells (cfg : Cfg) : Option Nat → List Use → List Word → Prop wh
   | shortGlued {l : Option Nat} {c : Char} {v : Word} {i : Nat} {d : ArgDef} {us : List Use} {ws : List Word} :
       c ≠ '-' → v ≠ [] → Resolves cfg (Key.ofChar c) i d → d.vmode = .required → Spells cfg (some i) us ws →
       Spells cfg l ({ arg := i, val := v, ident := true } :: us) (('-' :: c :: v) :: ws)
+  /-- `-c` for an argument whose value is optional (e.g. a LevelCounter), not followed by a value -/
+  | shortOpt {l : Option Nat} {c : Char} {i : Nat} {d : ArgDef} {us : List Use} {ws : List Word} :
+      c ≠ '-' → Resolves cfg (Key.ofChar c) i d → d.vmode = .optional → NoValueNext ws → Spells cfg (some i) us ws →
+      Spells cfg l ({ arg := i, val := [], ident := true } :: us) (['-', c] :: ws)
+  /-- `--name` for an argument whose value is optional, not followed by a value -/
+  | longOpt {l : Option Nat} {name : Word} {k : Key} {i : Nat} {d : ArgDef} {us : List Use} {ws : List Word} :
+      name ≠ [] → findEq name = none → Key.parse name = .ok k → Resolves cfg k i d → d.vmode = .optional →
+      NoValueNext ws → Spells cfg (some i) us ws →
+      Spells cfg l ({ arg := i, val := [], ident := true } :: us) (('-' :: '-' :: name) :: ws)
+  /-- `-abc`: several arguments without value grouped behind one dash -/
+  | flagGroup {l : Option Nat} {fs : List (Char × Nat × ArgDef)} {last : Nat} {us : List Use} {ws : List Word} :
+      (∀ f ∈ fs, f.1 ≠ '-' ∧ Resolves cfg (Key.ofChar f.1) f.2.1 f.2.2 ∧ f.2.2.vmode = .none) →
+      fs.getLast?.map (·.2.1) = some last → Spells cfg (some last) us ws →
+      Spells cfg l (fs.map (fun f => { arg := f.2.1, val := [], ident := true }) ++ us)
+        (('-' :: fs.map (·.1)) :: ws)
   /-- a free value behind a multi-value argument -/
   | free {v : Word} {i : Nat} {d : ArgDef} {us : List Use} {ws : List Word} :
       cfg.args[i]? = some d → d.multi = true → PlainWord v → Spells cfg (some i) us ws →
@@ -557,17 +576,100 @@ theorem enter_long_eq {b : It} {argv : List Word} {p : Nat} {name v : Word} (hb 
 theorem enter_short_more {b : It} {argv : List Word} {p : Nat} {c : Char} {rest : Word} (hb : AtB b argv p)
     (hw : argv[p]? = some ('-' :: c :: rest)) (hc : c ≠ '-') (hr : rest ≠ []) :
     ∃ ai, b.step = .ok ai ∧ ai.cur = Elem.setArgChar p 1 c ∧ ai.argv = argv ∧ ai.argIndex = p ∧ ai.charPos = 2 ∧
-      ai.nextIsValue = false ∧ ai.acceptDashed = false := by
+      ai.nextIsValue = false ∧ ai.acceptDashed = false ∧ ai.remAsValue = false := by
   rw [step_dash hb hw (by simp)]
   have hi := inWord_of_atB hb (rest.length + 2)
   obtain ⟨it', e1, e2, e3, e4, e5, e6, e7, _, _⟩ := dna_short_more hi hw hc hr 2
   simp only [List.length_cons] at e1 ⊢
   rw [e1, clearRem_ok]
-  exact ⟨_, rfl, e2, e3, e4, e5, e6, e7⟩
+  exact ⟨_, rfl, e2, e3, e4, e5, e6, e7, rfl⟩
 
 theorem atB_not_end {ai : It} {argv : List Word} {q : Nat} (hb : AtB ai argv q) (h1 : 1 ≤ argv.length)
     (hq : q ≤ argv.length) : ai.atEnd = false :=
   atEnd_false (by rw [hb.argv_eq]; exact h1) (by rw [hb.argv_eq, hb.idx]; exact hq)
+
+/-! ### inside a group of short keys -/
+
+/-- the cursor is about to read character `k` of word `p` (a word starting with one dash):
+    at the boundary before the word for `k = 1`, inside the word for `k ≥ 2` -/
+def Ready (x : It) (argv : List Word) (p k : Nat) : Prop :=
+  (k = 1 ∧ AtB x argv p) ∨
+  (2 ≤ k ∧ x.argv = argv ∧ x.argIndex = p ∧ x.charPos = k ∧ x.nextIsValue = false ∧ x.acceptDashed = false ∧
+    x.remAsValue = false)
+
+theorem getChar_at (argv : List Word) (p k : Nat) (w : Word) (c : Char) (hw : argv[p]? = some w) (hc : w[k]? = some c) :
+    getChar argv p k = .ok c := by
+  have hk := lt_of_getElem? hc
+  unfold getChar getWord
+  simp only [hw, Res.bind_ok, hk, if_true, Res.pure_eq]
+  simp [List.getD, hc]
+
+/-- reading character `k ≥ 2` of the word: `operator++` inside the word -/
+theorem step_inword {x : It} {argv : List Word} {p k : Nat} {w : Word} {c : Char} (h2 : 2 ≤ k) (hv : x.argv = argv)
+    (hi : x.argIndex = p) (hpos : x.charPos = k) (hn : x.nextIsValue = false) (hd : x.acceptDashed = false)
+    (hr : x.remAsValue = false) (hw : argv[p]? = some w) (hc : w[k]? = some c) (hcd : c ≠ '-') :
+    (k + 1 = w.length → ∃ y, x.step = .ok y ∧ y.cur = Elem.setArgChar p k c ∧ AtB y argv (p + 1)) ∧
+    (k + 1 ≠ w.length → ∃ y, x.step = .ok y ∧ y.cur = Elem.setArgChar p k c ∧ Ready y argv p (k + 1)) := by
+  have hlt := lt_of_getElem? hw
+  have hk := lt_of_getElem? hc
+  have hstep : x.step = clearRem (({ x with curLen := w.length } : It).determineNextArg 3) := by
+    unfold It.step It.next
+    have hnend : ¬ x.argIndex ≥ x.argc := by unfold It.argc; rw [hv, hi]; omega
+    rw [if_neg hnend]
+    have hcond : (x.nextIsValue || (x.remAsValue && decide (x.charPos > 0))) = false := by rw [hn, hr]; rfl
+    rw [hcond]
+    simp only [Bool.false_eq_true, if_false]
+    unfold getWord
+    rw [hv, hi, hw]
+    simp only [Res.bind_ok]
+    have : (x.charPos == 0) = false := by rw [hpos]; simp; omega
+    rw [this]
+    simp only [Bool.false_eq_true, if_false]
+  rw [hstep]
+  unfold It.determineNextArg
+  simp only
+  rw [hv, hi, hpos, getChar_at argv p k w c hw hc]
+  have hcd' : (c == '-') = false := by simp [hcd]
+  simp only [Res.bind_ok, hcd', Bool.false_eq_true, if_false]
+  constructor
+  · intro hl
+    have : (w.length == k + 1) = true := by simp; omega
+    rw [this]
+    simp only [if_true, Res.pure_eq, clearRem_ok]
+    exact ⟨_, rfl, rfl, ⟨rfl, rfl, rfl, hn, hd⟩⟩
+  · intro hl
+    have : (w.length == k + 1) = false := by simp; omega
+    rw [this]
+    simp only [Bool.false_eq_true, if_false, Res.pure_eq, clearRem_ok]
+    exact ⟨_, rfl, rfl, Or.inr ⟨by omega, rfl, rfl, rfl, hn, hd, rfl⟩⟩
+
+/-- reading character `k` of a word `-c₁c₂…` from a `Ready` cursor -/
+theorem step_ready {x : It} {argv : List Word} {p k : Nat} {cs : Word} {c : Char} (hx : Ready x argv p k)
+    (hw : argv[p]? = some ('-' :: cs)) (hc : ('-' :: cs)[k]? = some c) (hcd : c ≠ '-') :
+    (k + 1 = cs.length + 1 → ∃ y, x.step = .ok y ∧ y.cur = Elem.setArgChar p k c ∧ AtB y argv (p + 1)) ∧
+    (k + 1 ≠ cs.length + 1 → ∃ y, x.step = .ok y ∧ y.cur = Elem.setArgChar p k c ∧ Ready y argv p (k + 1)) := by
+  rcases hx with ⟨hk1, hb⟩ | ⟨h2, hv, hi, hpos, hn, hd, hr⟩
+  · subst hk1
+    cases cs with
+    | nil => simp at hc
+    | cons c1 rest =>
+      simp only [List.getElem?_cons_succ, List.getElem?_cons_zero, Option.some.injEq] at hc
+      subst hc
+      constructor
+      · intro hl
+        have : rest = [] := by
+          cases rest with
+          | nil => rfl
+          | cons a b => simp at hl
+        subst this
+        exact enter_short_last hb hw hcd
+      · intro hl
+        have hr : rest ≠ [] := by
+          intro e; subst e; simp at hl
+        obtain ⟨ai, e1, e2, e3, e4, e5, e6, e7, e8⟩ := enter_short_more hb hw hcd hr
+        exact ⟨ai, e1, e2, Or.inr ⟨by omega, e3, e4, e5, e6, e7, e8⟩⟩
+  · have := step_inword h2 hv hi hpos hn hd hr hw hc hcd
+    simpa using this
 
 theorem applyUses_cons_ident (cfg : Cfg) (h : HState) (i : Nat) (d : ArgDef) (v : Word) (us : List Use)
     (hd : cfg.args[i]? = some d) :
@@ -588,6 +690,129 @@ theorem bind_congr_ok {α β : Type} (X : Res α) (f g : α → Res β) (h : ∀
   | ok a => exact h a rfl
   | throw e => rfl
   | oob w => rfl
+
+/-- from a boundary that is followed by the end of the line or by a key word, the next element is
+    not a value -/
+theorem step_nonvalue {x : It} {argv : List Word} {q : Nat} (hb : AtB x argv q) (h1 : 1 ≤ argv.length)
+    (hn : NoValueNext (argv.drop q)) :
+    ∃ y, x.step = .ok y ∧ (y.atEnd = true ∨ y.cur.ty ≠ .value) := by
+  rcases hn with hnil | ⟨t, rest, hd, ht, ht'⟩
+  · -- end of the line
+    have hq : argv.length ≤ q := by
+      have : (argv.drop q).length = 0 := by rw [hnil]; rfl
+      simp only [List.length_drop] at this
+      omega
+    unfold It.step It.next
+    have hend : x.argIndex ≥ x.argc := by unfold It.argc; rw [hb.argv_eq, hb.idx]; omega
+    rw [if_pos hend, hb.argv_eq]
+    obtain ⟨e, he, _, _, _⟩ := mkEnd_ok h1
+    rw [he, clearRem_ok]
+    refine ⟨_, rfl, Or.inl ?_⟩
+    have := mkEnd_atEnd he
+    unfold It.atEnd at this ⊢
+    exact this
+  · obtain ⟨hw, _⟩ := drop_cons_getElem? hd
+    cases t with
+    | nil => exact absurd rfl ht
+    | cons c r =>
+      by_cases hc : c = '-'
+      · subst hc
+        have hr : r ≠ [] := fun e => ht' (by rw [e])
+        cases he : findEq r with
+        | none =>
+          obtain ⟨y, e1, e2, _⟩ := enter_long hb hw hr he
+          exact ⟨y, e1, Or.inr (by rw [e2]; simp [Elem.setArgString])⟩
+        | some e =>
+          rw [step_dash hb hw (by simp)]
+          have hi := inWord_of_atB hb (r.length + 2)
+          obtain ⟨it', e1, e2, _⟩ := dna_long_eq hi hw hr he 2
+          simp only [List.length_cons] at e1 ⊢
+          rw [e1, clearRem_ok]
+          exact ⟨_, rfl, Or.inr (by show it'.cur.ty ≠ _; rw [e2]; simp [Elem.setArgString])⟩
+      · by_cases hr : r = []
+        · subst hr
+          obtain ⟨y, e1, e2, _⟩ := enter_short_last hb hw hc
+          exact ⟨y, e1, Or.inr (by rw [e2]; simp [Elem.setArgChar])⟩
+        · obtain ⟨y, e1, e2, _⟩ := enter_short_more hb hw hc hr
+          exact ⟨y, e1, Or.inr (by rw [e2]; simp [Elem.setArgChar])⟩
+
+theorem ready_not_end {x : It} {argv : List Word} {p k : Nat} (hx : Ready x argv p k) (h1 : 1 ≤ argv.length)
+    (hp : p < argv.length) : x.atEnd = false := by
+  rcases hx with ⟨_, hb⟩ | ⟨_, hv, hi, _⟩
+  · exact atB_not_end hb h1 (by omega)
+  · exact atEnd_false (by rw [hv]; exact h1) (by rw [hv, hi]; omega)
+
+/-- the loop over the remaining characters of a flag group -/
+theorem group_loop (cfg : Cfg) (argv : List Word) (p : Nat) (cs : Word) (us : List Use) (last : Nat)
+    (hw : argv[p]? = some ('-' :: cs)) (h1 : 1 ≤ argv.length)
+    (cont : ∀ (b' : It) (h' : HState) (fuel' : Nat), AtB b' argv (p + 1) → h'.lastArg = some last →
+      us.length < fuel' → contB cfg fuel' h' b' = applyUses cfg h' us) :
+    ∀ (fs : List (Char × Nat × ArgDef)) (k : Nat) (x : It) (h : HState) (fuel : Nat), fs ≠ [] →
+      (∀ f ∈ fs, f.1 ≠ '-' ∧ Resolves cfg (Key.ofChar f.1) f.2.1 f.2.2 ∧ f.2.2.vmode = .none) →
+      fs.getLast?.map (·.2.1) = some last → Ready x argv p k → ('-' :: cs).drop k = fs.map (·.1) →
+      fs.length + us.length < fuel →
+      contB cfg fuel h x = applyUses cfg h (fs.map (fun f => { arg := f.2.1, val := [], ident := true }) ++ us) := by
+  have hplt := lt_of_getElem? hw
+  intro fs
+  induction fs with
+  | nil => intro k x h fuel hne; exact absurd rfl hne
+  | cons f rest ih =>
+    intro k x h fuel _ hall hlast hx hdrop hf
+    obtain ⟨hfc, hfr, hfm⟩ := hall f (List.mem_cons_self)
+    simp only [List.map_cons] at hdrop
+    obtain ⟨hck, hdrop'⟩ := drop_cons_getElem? hdrop
+    have hcfg := findArg_cfg hfr
+    have hklt := lt_of_getElem? hck
+    obtain ⟨hA, hB⟩ := step_ready hx hw hck hfc
+    cases fuel with
+    | zero => omega
+    | succ fuel =>
+      have hev : ∀ y : It, y.cur = Elem.setArgChar p k f.1 →
+          evalSingleArgument cfg h y = (handleIdentifiedArg cfg { h with lastArg := some f.2.1 } f.2.1 f.2.2 [] >>=
+            fun h' => pure (h', y, ArgResult.consumed)) := by
+        intro y hy
+        unfold evalSingleArgument
+        rw [hy]
+        simp only [Elem.setArgChar]
+        exact evalKey_novalue cfg h y _ f.2.1 f.2.2 hfr hfm
+      cases rest with
+      | nil =>
+        -- last character of the group
+        have hl : k + 1 = cs.length + 1 := by
+          have : (('-' :: cs).drop (k + 1)).length = 0 := by rw [hdrop']; rfl
+          simp only [List.length_drop, List.length_cons] at this
+          simp only [List.length_cons] at hklt
+          omega
+        obtain ⟨y, e1, e2, e3⟩ := hA hl
+        unfold contB
+        rw [e1]
+        simp only [Res.bind_ok]
+        have hne := atB_not_end e3 h1 (by omega)
+        rw [loop_step cfg fuel h y y _ hne (hev y e2)]
+        simp only [List.map_cons, List.map_nil, List.cons_append, List.nil_append]
+        rw [applyUses_cons_ident cfg h f.2.1 f.2.2 [] us hcfg]
+        apply bind_congr_ok
+        intro h' hh'
+        have hl' : some f.2.1 = some last := by simpa using hlast
+        exact cont y h' fuel e3 (by rw [(handleIdentifiedArg_frame hh').2.1]; exact hl') (by simp at hf; omega)
+      | cons g rest' =>
+        have hl : k + 1 ≠ cs.length + 1 := by
+          have : (('-' :: cs).drop (k + 1)).length = (g :: rest').length := by rw [hdrop']; simp
+          simp only [List.length_drop, List.length_cons] at this
+          omega
+        obtain ⟨y, e1, e2, e3⟩ := hB hl
+        unfold contB
+        rw [e1]
+        simp only [Res.bind_ok]
+        have hne := ready_not_end e3 h1 hplt
+        rw [loop_step cfg fuel h y y _ hne (hev y e2)]
+        simp only [List.map_cons, List.cons_append]
+        rw [applyUses_cons_ident cfg h f.2.1 f.2.2 [] _ hcfg]
+        apply bind_congr_ok
+        intro h' hh'
+        have := ih (k + 1) y h' fuel (by simp) (fun f' hf' => hall f' (List.mem_cons_of_mem _ hf'))
+          (by simpa using hlast) e3 hdrop' (by simp at hf ⊢; omega)
+        simpa using this
 
 /-- **Spelling theorem (loop form).**  From the boundary before a sequence of words that spells the
     uses `us`, the element loop does exactly what `applyUses` does — same destinations, counters,
@@ -768,7 +993,7 @@ theorem spells_loop (cfg : Cfg) {l : Option Nat} {us : List Use} {ws : List Word
     intro argv p b h fuel hb hd h1 _ hf
     obtain ⟨hw, hd'⟩ := drop_cons_getElem? hd
     have hplt := lt_of_getElem? hw
-    obtain ⟨ai, e1, e2, e3, e4, e5, e6, e7⟩ := enter_short_more hb hw hc hv
+    obtain ⟨ai, e1, e2, e3, e4, e5, e6, e7, _⟩ := enter_short_more hb hw hc hv
     have hcfg := findArg_cfg hr
     cases fuel with
     | zero => omega
@@ -794,6 +1019,62 @@ theorem spells_loop (cfg : Cfg) {l : Option Nat} {us : List Use} {ws : List Word
       apply bind_congr_ok
       intro h' hh'
       exact ih argv (p + 1) ait2 h' fuel s3 hd' h1 (by rw [(handleIdentifiedArg_frame hh').2.1]) (by simp at hf; omega)
+  | @shortOpt l c i d us ws hc hr hm hnv _ ih =>
+    intro argv p b h fuel hb hd h1 _ hf
+    obtain ⟨hw, hd'⟩ := drop_cons_getElem? hd
+    have hplt := lt_of_getElem? hw
+    obtain ⟨ai, e1, e2, e3⟩ := enter_short_last hb hw hc
+    have hcfg := findArg_cfg hr
+    obtain ⟨ait2, s1, s2⟩ := step_nonvalue e3 h1 (by rw [hd']; exact hnv)
+    cases fuel with
+    | zero => omega
+    | succ fuel =>
+      unfold contB
+      rw [e1]
+      simp only [Res.bind_ok]
+      have hne := atB_not_end e3 h1 (by omega)
+      have hev : evalSingleArgument cfg h ai = (handleIdentifiedArg cfg { h with lastArg := some i } i d [] >>=
+          fun h' => pure (h', ai, ArgResult.consumed)) := by
+        unfold evalSingleArgument
+        rw [e2]
+        simp only [Elem.setArgChar]
+        exact evalKey_optional_alone cfg h ai ait2 _ i d hr hm s1 s2
+      rw [loop_step cfg fuel h ai ai _ hne hev, applyUses_cons_ident cfg h i d [] us hcfg]
+      apply bind_congr_ok
+      intro h' hh'
+      exact ih argv (p + 1) ai h' fuel e3 hd' h1 (by rw [(handleIdentifiedArg_frame hh').2.1]) (by simp at hf; omega)
+  | @longOpt l name k i d us ws hn he hk hr hm hnv _ ih =>
+    intro argv p b h fuel hb hd h1 _ hf
+    obtain ⟨hw, hd'⟩ := drop_cons_getElem? hd
+    have hplt := lt_of_getElem? hw
+    obtain ⟨ai, e1, e2, e3⟩ := enter_long hb hw hn he
+    have hcfg := findArg_cfg hr
+    obtain ⟨ait2, s1, s2⟩ := step_nonvalue e3 h1 (by rw [hd']; exact hnv)
+    cases fuel with
+    | zero => omega
+    | succ fuel =>
+      unfold contB
+      rw [e1]
+      simp only [Res.bind_ok]
+      have hne := atB_not_end e3 h1 (by omega)
+      have hev : evalSingleArgument cfg h ai = (handleIdentifiedArg cfg { h with lastArg := some i } i d [] >>=
+          fun h' => pure (h', ai, ArgResult.consumed)) := by
+        unfold evalSingleArgument
+        rw [e2]
+        simp only [Elem.setArgString, hk, Res.bind_ok]
+        exact evalKey_optional_alone cfg h ai ait2 _ i d hr hm s1 s2
+      rw [loop_step cfg fuel h ai ai _ hne hev, applyUses_cons_ident cfg h i d [] us hcfg]
+      apply bind_congr_ok
+      intro h' hh'
+      exact ih argv (p + 1) ai h' fuel e3 hd' h1 (by rw [(handleIdentifiedArg_frame hh').2.1]) (by simp at hf; omega)
+  | @flagGroup l fs last us ws hall hlast _ ih =>
+    intro argv p b h fuel hb hd h1 _ hf
+    obtain ⟨hw, hd'⟩ := drop_cons_getElem? hd
+    by_cases hne : fs = []
+    · subst hne; simp at hlast
+    · exact group_loop cfg argv p (fs.map (·.1)) us last hw h1
+        (fun b' h' fuel' hb' hl' hf' => ih argv (p + 1) b' h' fuel' hb' hd' h1 hl' hf')
+        fs 1 b h fuel hne hall hlast (Or.inl ⟨rfl, hb⟩) (by simp) (by simp at hf; omega)
   | @free v i d us ws hcfg hmu hpv _ ih =>
     intro argv p b h fuel hb hd h1 hl hf
     obtain ⟨hw, hd'⟩ := drop_cons_getElem? hd
@@ -816,8 +1097,9 @@ theorem spells_loop (cfg : Cfg) {l : Option Nat} {us : List Use} {ws : List Word
       intro h' hh'
       exact ih argv (p + 1) ai h' fuel e3 hd' h1 (by rw [(assignValue_frame hh').2.1, hl]) (by simp at hf; omega)
 
+/-- every use takes at least one character of the words (which is what bounds the loop) -/
 theorem spells_length {cfg : Cfg} {l : Option Nat} {us : List Use} {ws : List Word} (hs : Spells cfg l us ws) :
-    us.length ≤ ws.length := by
+    us.length ≤ (ws.map (fun w => w.length + 1)).sum := by
   induction hs <;> simp <;> omega
 
 theorem spells_first {cfg : Cfg} {l : Option Nat} {us : List Use} {ws : List Word} (hs : Spells cfg l us ws) :
@@ -852,17 +1134,35 @@ theorem spells_first {cfg : Cfg} {l : Option Nat} {us : List Use} {ws : List Wor
     intro w hw; simp only [List.head?_cons, Option.some.injEq] at hw; subst hw
     refine ⟨by simp, by simp, by simp, ?_⟩
     intro e; simp only [List.cons.injEq, true_and] at e; exact hc e.1
+  | shortOpt hc _ _ _ _ =>
+    intro w hw; simp only [List.head?_cons, Option.some.injEq] at hw; subst hw
+    refine ⟨by simp, by simp, by simp, ?_⟩
+    intro e; simp only [List.cons.injEq, and_true] at e; exact hc e.2
+  | longOpt hn _ _ _ _ _ _ =>
+    intro w hw; simp only [List.head?_cons, Option.some.injEq] at hw; subst hw
+    refine ⟨by simp, by simp, by simp, ?_⟩
+    intro e; simp only [List.cons.injEq, true_and] at e; exact hn e
+  | @flagGroup _ fs _ _ _ hall hlast _ =>
+    intro w hw; simp only [List.head?_cons, Option.some.injEq] at hw; subst hw
+    refine ⟨by simp, by simp, by simp, ?_⟩
+    intro e
+    simp only [List.cons.injEq, true_and] at e
+    cases fs with
+    | nil => simp at hlast
+    | cons f rest =>
+      simp only [List.map_cons, List.cons.injEq] at e
+      exact (hall f List.mem_cons_self).1 e.1
   | free _ _ hp _ =>
     intro w hw; simp only [List.head?_cons, Option.some.injEq] at hw; subst hw
     exact plain _ hp
 
-theorem totalChars_gt (argv : List Word) : argv.length < totalChars argv := by
+theorem totalChars_gt (argv : List Word) : (argv.map (fun w => w.length + 1)).sum < totalChars argv := by
   unfold totalChars
-  have : ∀ l : List Word, l.length ≤ (l.map (fun w => w.length + 2)).sum := by
+  have : ∀ l : List Word, (l.map (fun w => w.length + 1)).sum ≤ (l.map (fun w => w.length + 2)).sum := by
     intro l
     induction l with
     | nil => simp
-    | cons a l ih => simp only [List.length_cons, List.map_cons, List.sum_cons]; omega
+    | cons a l ih => simp only [List.map_cons, List.sum_cons]; omega
   have := this argv
   omega
 
@@ -877,7 +1177,7 @@ theorem spells_iterate (cfg : Cfg) {us : List Use} {ws : List Word} (h : HState)
     (by simp) rfl (by
       have h1 := spells_length hs
       have h2 := totalChars_gt (prog :: ws)
-      simp only [List.length_cons] at h2
+      simp only [List.map_cons, List.sum_cons] at h2
       omega)
   unfold contB at this
   exact this
